@@ -1,9 +1,10 @@
 ------------------------------- MODULE MCFutex -------------------------------
 (* model instances for FutexImpl (function-valued constants cannot be written in a cfg) *)
 EXTENDS FutexImpl
-W(a, timed) == [op |-> "wait32", a |-> a, x |-> 0, timed |-> timed]
-N(a, n) == [op |-> "notify", a |-> a, x |-> n, timed |-> FALSE]
-S(a, v) == [op |-> "store", a |-> a, x |-> v, timed |-> FALSE]
+W(a, timed) == [op |-> "wait32", a |-> a, x |-> 0, timed |-> timed, fail |-> FALSE]
+WF(a, timed) == [op |-> "wait32", a |-> a, x |-> 0, timed |-> timed, fail |-> TRUE]
+N(a, n) == [op |-> "notify", a |-> a, x |-> n, timed |-> FALSE, fail |-> FALSE]
+S(a, v) == [op |-> "store", a |-> a, x |-> v, timed |-> FALSE, fail |-> FALSE]
 \* 3 waiters (one timed; address 3 collides with 1 in a 2-bucket map), 2 notifiers
 ThreadsA == 1..5
 ProgA == <<W(1, FALSE), W(1, TRUE), W(3, TRUE), N(1, 1), N(3, 2)>>
@@ -13,6 +14,9 @@ ProgB == <<W(1, TRUE), W(1, FALSE), W(1, TRUE), N(1, 2), S(1, 7)>>
 \* 4 waiters, 2 notifiers, 3 addresses
 ThreadsC == 1..6
 ProgC == <<W(1, TRUE), W(1, TRUE), W(3, FALSE), W(2, TRUE), N(1, 2), N(3, 1)>>
+\* allocation failures in waits next to blocked waiters of the same and of a colliding address
+ThreadsF == 1..6
+ProgF == <<W(1, FALSE), WF(1, FALSE), W(3, TRUE), WF(3, TRUE), N(1, 2), S(3, 7)>>
 \* all waiters timed: must terminate under fairness
 ThreadsL == 1..5
 ProgL == <<W(1, TRUE), W(1, TRUE), W(3, TRUE), N(1, 1), S(1, 7)>>
